@@ -154,17 +154,46 @@ def _norm_ws(s):
 
 
 def _find_anchor(text, anchor):
-    """Locate literal anchor in text ignoring whitespace. Returns (start,end) or raises."""
-    # build map from normalized index -> original index
+    """Locate literal anchor in text ignoring whitespace. Returns (start,end) or None."""
     idx = [i for i, ch in enumerate(text) if not ch.isspace()]
     norm = "".join(text[i] for i in idx)
     a = _norm_ws(anchor)
     pos = norm.find(a)
     if pos < 0:
-        raise Undecided("anchor not found: %r" % anchor)
+        return None
     if norm.find(a, pos + 1) >= 0:
         raise Undecided("anchor ambiguous: %r" % anchor)
     return idx[pos], idx[pos + len(a) - 1] + 1
+
+
+def _line_spans(text):
+    out = []
+    p = 0
+    for ln in text.split("\n"):
+        out.append((p, p + len(ln), ln))
+        p += len(ln) + 1
+    return out
+
+
+def _fuzzy_anchor(text, anchor, taken):
+    """Best unique line-level match for a (single-line) anchor whose exact text was edited."""
+    import difflib
+    a = _norm_ws(anchor)
+    cands = []
+    for (s, e, ln) in _line_spans(text):
+        n = _norm_ws(ln)
+        if not n or n in taken or n.startswith("//"):
+            continue
+        # compare against the prefix of the line of the anchor's length (anchors may be line prefixes)
+        r = max(difflib.SequenceMatcher(None, a, n).ratio(),
+                difflib.SequenceMatcher(None, a, n[:len(a)]).ratio() if len(n) > len(a) else 0)
+        cands.append((r, s, e))
+    cands.sort(reverse=True)
+    if not cands or cands[0][0] < 0.72:
+        return None
+    if len(cands) > 1 and cands[0][0] - cands[1][0] < 0.06:
+        return None
+    return cands[0][1], cands[0][2]
 
 
 class Gen:
@@ -306,18 +335,84 @@ class Gen:
                     ins.append((loops[k - 1][1], k, text))
                 for pos, k, text in sorted(ins, reverse=True):
                     body = body[:pos] + "\n/*@LOOP %d*/\n" % k + text + "\n/*@ENDLOOP*/\n" + body[pos:]
-            for where, anchor, text in ctr.proofs:
-                a, b = _find_anchor(body, anchor)
+            body = self._insert_proofs(key, ctr, body, s.path, body_line)
+        # emit body line by line with origin tracking
+        self._emit_body(body, s.path, body_line, key)
+        self.functions.append(dict(fn=key, file=s.path, line=sig_line, first=fn_first, last=self.cur_line() - 1,
+                                   contracted=bool(ctr and (ctr.requires or ctr.ensures))))
+
+    def _insert_proofs(self, key, ctr, body, path, body_line):
+        """Resolve every @proof anchor: exact text, else unique fuzzy line match (the anchored
+        line was edited), else the neighbouring statements recorded in anchors.lock.json on the
+        pinned tree (the anchored line was deleted). Relocations are reported in the fidelity log."""
+        lock = self.anchor_lock.get(key, {})
+        exact_norm = set()
+        spans = {}
+        for where, anchor, text in ctr.proofs:
+            sp = _find_anchor(body, anchor)
+            spans[anchor] = sp
+            if sp:
+                ls = body.rfind("\n", 0, sp[0]) + 1
+                le = body.find("\n", sp[1])
+                exact_norm.add(_norm_ws(body[ls:le if le >= 0 else len(body)]))
+        ins = []
+        newlock = {}
+        for where, anchor, text in ctr.proofs:
+            sp = spans[anchor]
+            how = "exact"
+            if sp is None:
+                sp = _fuzzy_anchor(body, anchor, exact_norm)
+                how = "fuzzy"
+            if sp is None and anchor in lock:
+                nb = lock[anchor]
+                for side, ntext in (("prev", nb.get("prev")), ("next", nb.get("next"))):
+                    if not ntext:
+                        continue
+                    hits = [x for x in _line_spans(body) if _norm_ws(x[2]) == ntext]
+                    if len(hits) != 1:
+                        continue
+                    for (ls, le, ln) in hits:
+                        if True:
+                            # position relative to the neighbour
+                            if where == "after":
+                                pos = le + 1 if side == "prev" else ls
+                            else:
+                                pos = le + 1 if side == "prev" else ls
+                            ins.append((min(pos, len(body)), text))
+                            how = "neighbour-" + side
+                            sp = (ls, le)
+                            break
+                    if how.startswith("neighbour"):
+                        break
+                if not how.startswith("neighbour"):
+                    sp = None
+            if sp is None:
+                raise Undecided("%s: anchor not found: %r" % (key, anchor))
+            if how != "exact":
+                self.fidelity.append(dict(rule="anchor-relocated(%s)" % how, file=path, line=body_line, item=key,
+                                          before=anchor, after=body[sp[0]:sp[1]].strip()[:160], trusted="nothing (proof hint placement only)"))
+            if not how.startswith("neighbour"):
+                a, b = sp
                 if where == "before":
                     p = body.rfind("\n", 0, a) + 1
                 else:
                     p = body.find("\n", b)
                     p = len(body) if p < 0 else p + 1
-                body = body[:p] + "/*@PROOF*/\n" + text + "\n/*@ENDPROOF*/\n" + body[p:]
-        # emit body line by line with origin tracking
-        self._emit_body(body, s.path, body_line, key)
-        self.functions.append(dict(fn=key, file=s.path, line=sig_line, first=fn_first, last=self.cur_line() - 1,
-                                   contracted=bool(ctr and (ctr.requires or ctr.ensures))))
+                ins.append((p, text))
+                # record neighbours (normalized previous / next non-empty code lines)
+                if how == "exact":
+                    lines = _line_spans(body)
+                    k = next(i for i, (ls, le, ln) in enumerate(lines) if ls <= a <= le)
+                    k2 = next(i for i, (ls, le, ln) in enumerate(lines) if ls <= max(b - 1, a) <= le)
+                    prev = next((_norm_ws(lines[i][2]) for i in range(k - 1, -1, -1)
+                                 if _norm_ws(lines[i][2]) and not lines[i][2].strip().startswith("//")), None)
+                    nxt = next((_norm_ws(lines[i][2]) for i in range(k2 + 1, len(lines))
+                                if _norm_ws(lines[i][2]) and not lines[i][2].strip().startswith("//")), None)
+                    newlock[anchor] = dict(prev=prev, next=nxt)
+        self.new_anchor_lock[key] = newlock
+        for p, text in sorted(ins, key=lambda t: t[0], reverse=True):
+            body = body[:p] + "/*@PROOF*/\n" + text + "\n/*@ENDPROOF*/\n" + body[p:]
+        return body
 
     def _emit_body(self, body, path, body_line, key):
         src_line = body_line
@@ -365,6 +460,9 @@ class Gen:
         self.contracts = parse_contracts(os.path.join(self.udir, u["contracts"])) if u.get("contracts") else {}
         self.used_contracts = set()
         self.requires_lines = []
+        lp = os.path.join(self.udir, 'anchors.lock.json')
+        self.anchor_lock = json.load(open(lp)) if os.path.exists(lp) else {}
+        self.new_anchor_lock = {}
         self.emit("// GENERATED by /verif/lib/vxgen.py from /repo's working tree - do not edit")
         self.emit("#![allow(unused_imports, unused_variables, dead_code, unused_mut, unused_parens, unused_braces)]")
         self.emit("use vstd::prelude::*;")
